@@ -258,6 +258,8 @@ fn regression_templates() -> Vec<Vec<Tmpl>> {
         vec![Tmpl::A(Some(("foo", 1))), Tmpl::F("foo", None, true, true), Tmpl::U(vec!["foo"]), Tmpl::F("foo", None, true, false), Tmpl::D(vec!["foo"])],
         // the same fn line again skips the block; no end of block crashes
         vec![Tmpl::F("foo", Some(3), true, false), Tmpl::F("foo", Some(3), true, false), Tmpl::F("a", Some(7), false, false), Tmpl::D(vec!["a"])],
+        // words that look like options are names like any other
+        vec![Tmpl::A(Some(("a", 1))), Tmpl::A(Some(("foo", 1))), Tmpl::U(vec!["-a"]), Tmpl::D(vec!["a"]), Tmpl::D(vec!["foo"]), Tmpl::U(vec!["--all"]), Tmpl::R(vec!["-a"]), Tmpl::D(vec!["a"])],
         // alias of a word that is not a command (yet / any more)
         vec![Tmpl::A(Some(("a", 3))), Tmpl::D(vec!["a"]), Tmpl::A(Some(("foo", 4))), Tmpl::D(vec!["foo"]), Tmpl::R(vec!["a"]), Tmpl::A(Some(("b", 4))), Tmpl::D(vec!["b"])],
         // arity
@@ -302,7 +304,7 @@ fn random_templates(rng: &mut Rng) -> Vec<Tmpl> {
                 1 => Tmpl::U(if rng.chance(1, 2) { vec![] } else { vec![name, rng.pick_s(&SNAMES)] }),
                 2 => Tmpl::R(if rng.chance(1, 2) { vec![] } else { vec![name, rng.pick_s(&SNAMES)] }),
                 3 => Tmpl::D(if rng.chance(1, 2) { vec![] } else { vec![name, rng.pick_s(&SNAMES)] }),
-                _ => Tmpl::U(vec!["std::B"]),
+                _ => Tmpl::U(vec![rng.pick_s(&["std::B", "-a", "--all", "*", "-r"])]),
             },
         };
         ts.push(t);
